@@ -701,6 +701,7 @@ int connect(int fd, const struct sockaddr *sa, socklen_t len) {
         if (s->st == TcpSock::LISTEN) KERR(C_CONNECT, EINVAL);
         if (s->st == TcpSock::DISCONNECTED) { if (s->so_error) { int er = s->so_error; s->so_error = 0; KERR(C_CONNECT, er); } s->st = TcpSock::FRESH; }
         if (int er = rescall_fault("connect")) KERR(C_CONNECT, er);
+        K->connect_log.emplace_back(cur() ? cur()->id : 0, a);
         Host h = K->host_for(a);
         if (h.kind == HostKind::UNREACH_NET) { G->logf("connect(%d, %s) = ENETUNREACH", fd, a.str().c_str()); KERR(C_CONNECT, ENETUNREACH); }
         if (!s->bound || s->local.is_wildcard()) {
